@@ -34,9 +34,13 @@ MIN_NONTRIVIAL = {"quick": 100, "thorough": 800}
 LOG_ALPHA = math.log(1e-9)
 
 VECTORS = [["1", "1"], ["1", "2", "3"], ["1", "9"], ["1", "99"], ["1"] * 10, ["0.5", "0.25", "0.25"], ["3.4", "5", "3"],
-           ["1", "0", "1"], ["2", "0", "0", "1"], ["1"] * 32, ["5", "15", "80"]]
+           ["1", "0", "1"], ["2", "0", "0", "1"], ["1"] * 32, ["5", "15", "80"],
+           ["3000000000", "3000000000"], ["1000000000", "1500000000", "2500000000"], ["100000000", "100000000", "50000000"],
+           ["40000000000000000000", "60000000000000000000"]]
 SALT_PAIRS = [(None, "s1"), ("", "x"), ("exp_a", "exp_b"), ("exp1", "exp2"), ("é", "è"), ("salt", "salt2"), ("a", "aa"),
-              ("日本", "日本語"), ("2024-01", "2024-02"), ("A", "a")]
+              ("日本", "日本語"), ("2024-01", "2024-02"), ("A", "a"),
+              ("checkout-page-redesign-2026-q4-holdout-wave-1", "checkout-page-redesign-2026-q4-holdout-wave-2"),
+              ("x" * 64 + "a", "x" * 64 + "b"), ("team/experiment/" * 20 + "1", "team/experiment/" * 20 + "2"), ("s" * 255 + "1", "s" * 256)]
 
 
 def family(name, rnd, n, offset):
